@@ -25,9 +25,29 @@ def solver_for(axioms, timeout_ms):
 
 
 def check(ob, axioms, timeout_ms=None):
-    """-> (verdict, backend, ms, model-or-reason). hyps of the obligation = axioms + ob.hyps"""
+    """-> (verdict, backend, ms, model-or-reason). hyps of the obligation = axioms + ob.hyps.
+    1. ground pass: quantified hypotheses dropped (weaker hypotheses: `unsat` is a proof; `sat` gives a candidate model)
+    2. full pass with quantified hypotheses (z3, then cvc5 / z3-4.8.12 on the SMT-LIB dump)
+    3. still open and a candidate model exists -> refuted(candidate) -- to be replayed natively (DESIGN section 7)"""
     t0 = time.time()
-    s = solver_for(axioms, timeout_ms or Z3_MS)
+    tmo = timeout_ms or Z3_MS
+    candidate = None
+    g = z3.Solver()
+    g.set("timeout", tmo)
+    ground = [h for h in ob.hyps if not has_quantifier(h)]
+    gax = ground_axioms(axioms)
+    g.add(*gax)
+    g.add(*ground)
+    g.add(z3.Not(ob.goal))
+    goal_q = has_quantifier(ob.goal)
+    r1 = g.check()
+    if r1 == z3.unsat:
+        return "proved", "z3-5.1", int(1000 * (time.time() - t0)), None
+    if r1 == z3.sat and not goal_q:
+        candidate = model_text(g.model())
+        if len(ground) == len(ob.hyps) and len(gax) == len(axioms):
+            return "refuted", "z3-5.1", int(1000 * (time.time() - t0)), candidate
+    s = solver_for(axioms, tmo)
     s.push()
     try:
         s.add(*ob.hyps)
@@ -37,24 +57,50 @@ def check(ob, axioms, timeout_ms=None):
         if r == z3.unsat:
             return "proved", "z3-5.1", ms, None
         if r == z3.sat:
-            m = s.model()
-            return "refuted", "z3-5.1", ms, model_text(m)
+            return "refuted", "z3-5.1", ms, model_text(s.model())
         reason = s.reason_unknown()
-        if os.environ.get("PYVC_NO_EXTERNAL"):
-            return "undecided", "z3-5.1", ms, "unknown: " + reason
         s2 = z3.Solver()
         s2.add(*s.assertions())
     finally:
         s.pop()
-    s = s2
-    # second back end on the SMT-LIB dump
-    v2 = external(s, "cvc5")
-    if v2 is not None and v2[0] == "proved":
-        return "proved", "cvc5-1.0.3", ms + v2[1], None
-    v3 = external(s, "z3old")
-    if v3 is not None and v3[0] == "proved":
-        return "proved", "z3-4.8.12", ms + v3[1], None
+    if not os.environ.get("PYVC_NO_EXTERNAL"):
+        v2 = external(s2, "cvc5")
+        if v2 is not None and v2[0] == "proved":
+            return "proved", "cvc5-1.0.3", ms + v2[1], None
+        v3 = external(s2, "z3old")
+        if v3 is not None and v3[0] == "proved":
+            return "proved", "z3-4.8.12", ms + v3[1], None
+    ms = int(1000 * (time.time() - t0))
+    if candidate is not None:
+        return "refuted", "z3-5.1(candidate: quantified hypotheses dropped)", ms, candidate
     return "undecided", "z3-5.1", ms, "unknown: " + reason
+
+
+_GAX = {}
+
+
+def ground_axioms(axioms):
+    key = id(axioms)
+    if key not in _GAX:
+        _GAX[key] = [a for a in axioms if not has_quantifier(a)]
+    return _GAX[key]
+
+
+def has_quantifier(t):
+    seen = set()
+    stack = [t]
+    while stack:
+        x = stack.pop()
+        if x.get_id() in seen:
+            continue
+        seen.add(x.get_id())
+        if z3.is_quantifier(x):
+            if not x.is_lambda():
+                return True
+            stack.append(x.body())
+        if z3.is_app(x):
+            stack.extend(x.children())
+    return False
 
 
 def model_text(m, limit=60):
